@@ -147,7 +147,7 @@ pub fn run_family(ctx: &Ctx, name: &str, bound: &str, shards: usize, total: &Mut
 pub struct SweepPlan {
     pub reach_depth_small: usize,
     pub reach_depth_big: usize,
-    pub mat1: bool,
+    pub mat1: Vec<Vec<Man>>,
     pub mat2: Vec<Vec<Man>>,
     pub ep_extra: Vec<Option<Man>>,
     pub ep_restrict_king: bool,
@@ -160,7 +160,7 @@ pub struct SweepPlan {
     pub see_family: Option<usize>,
 }
 
-fn men1() -> Vec<Vec<Man>> {
+pub fn men1() -> Vec<Vec<Man>> {
     families::ALL_MEN.iter().map(|m| vec![*m]).collect()
 }
 
@@ -224,9 +224,9 @@ pub fn run_plan(ctx: &Ctx, plan: &SweepPlan) -> (u64, u64) {
     if plan.rights {
         add(run_family(ctx, "F-RIGHTS", "4 home placements x 16 right subsets x 2 sides", 1, &total, &|_, cb| enumerate_rights(cb)));
     }
-    if plan.mat1 {
-        let sigs = men1();
-        add(run_family(ctx, "F-MAT(kings+1)", "10 signatures, all squares, both sides, all consistent rights/ep", sigs.len() * 64, &total, &|i, cb| {
+    if !plan.mat1.is_empty() {
+        let sigs = plan.mat1.clone();
+        add(run_family(ctx, "F-MAT(kings+1)", &format!("{} of 10 signatures, all squares, both sides, all consistent rights/ep", sigs.len()), sigs.len() * 64, &total, &|i, cb| {
             families::enumerate_material((i % 64) as u8, &sigs[i / 64], cb)
         }));
     }
